@@ -768,6 +768,7 @@ class PluginHost(importlib.abc.MetaPathFinder, importlib.abc.Loader):
         self.import_log = []     # every watched name the import system asked for
         self.exec_log = []       # fake modules actually executed
         self.calls = []          # (module, func, args, behaviour)
+        self.transient_done = {}
         self.pkgs = set()
         for name in list(self.specs):
             parts = name.split(".")
@@ -793,6 +794,11 @@ class PluginHost(importlib.abc.MetaPathFinder, importlib.abc.Loader):
             return
         spec = self.specs[name]
         self.exec_log.append(name)
+        if spec.get("transient", 0) > self.transient_done.get(name, 0):
+            # a transient environment failure while the module is being loaded (too many open files); the next
+            # import attempt succeeds
+            self.transient_done[name] = self.transient_done.get(name, 0) + 1
+            raise OSError(_errno.EMFILE, "Too many open files", name)
         imp = spec.get("import", "ok")
         if imp == "ImportError":
             raise ImportError("cannot import name 'helper' from fake dependency of %s" % name)
